@@ -7,6 +7,7 @@
 #include <sys/stat.h>
 #include <qb/qbdefs.h>
 #include <qb/qblog.h>
+#include <qb/qbutil.h>
 
 #define NAME "vp-log-ident-0123456789-abcdefghij"
 static const char *PRIO[] = { "emerg", "alert", "crit", "error", "warning", "notice", "info", "debug", "trace" };
@@ -306,6 +307,8 @@ static int read_new_line(char *buf, size_t sz)
 	return (int)n;
 }
 
+static long n_oldcb_calls, n_oldcb_msgs;
+static void old_log_cb(const char *file_name, int32_t file_line, int32_t severity, const char *msg) { (void)file_name; (void)file_line; (void)severity; n_oldcb_msgs++; volatile size_t l = strlen(msg); (void)l; }
 static void calls_case(long kase)
 {
 	vprng_t r; vp_seed(&r, vp.seed, (uint64_t)kase);
@@ -337,6 +340,10 @@ static void calls_case(long kase)
 	int ncalls = 1 + (int)vp_u(&r, 3);
 	for (int c = 0; c < ncalls; c++) {
 		struct site s; gen_site(&r, &s);
+		/* the deprecated callback of qb_util_set_log_function() gets messages tagged as libqb's own; whatever it is given, the
+		 * targets must still get the formatted message bounded by their own limit */
+		int oldcb = vp_chance(&r, 1, 5);
+		if (oldcb) { s.tags |= 1u << QB_LOG_TAG_LIBQB_MSG_BIT; if (vp_chance(&r, 2, 3)) { qb_util_set_log_function(old_log_cb); n_oldcb_calls++; } }
 		static char a1[8000], a2[300], exp[20000];
 		int has_nl; gen_msg(&r, a1, maxlen ? maxlen : 64, &has_nl);
 		int xc = vp_chance(&r, 1, 5) && strlen(a1) > 2; size_t xcpos = 0;
@@ -353,6 +360,7 @@ static void calls_case(long kase)
 		case 4: fmt = "%s"; qb_log_from_external_source(s.function, s.filename, fmt, s.priority, s.lineno, s.tags, ""); exp[0] = 0; break;
 		default: fmt = "plain text without arguments"; qb_log_from_external_source(s.function, s.filename, fmt, s.priority, s.lineno, s.tags); snprintf(exp, sizeof exp, "%s", fmt); break;
 		}
+		if (oldcb) qb_util_set_log_function(NULL);
 		vp_desc("calls limit-req=%d flimit=%zu shape=%d msglen=%zu xc=%d", req, flimit, shape, strlen(exp), xc);
 		/* expected message as handed to a logger */
 		size_t el = strlen(exp);
@@ -438,7 +446,7 @@ int main(int argc, char **argv)
 	vp_count("lines_judged", n_judged); vp_count("lines_equal_to_reference", n_equal); vp_count("safety_only_cases", n_safety_only);
 	vp_count("truncated_lines", n_trunc); vp_count("ellipsis_seen", n_ellipsis); vp_count("log_calls", n_calls);
 	vp_count("custom_logger_deliveries", n_delivered); vp_count("file_lines_read", n_file_lines); vp_count("limits_rejected_by_ctl", n_ctl_rejected);
-	vp_count("limit_placed_at_line_end", n_limit_at_end);
+	vp_count("limit_placed_at_line_end", n_limit_at_end); vp_count("calls_with_the_deprecated_callback_registered", n_oldcb_calls); vp_count("messages_seen_by_the_deprecated_callback", n_oldcb_msgs);
 	vp_finish();
 	return 0;
 }
